@@ -59,11 +59,20 @@ Proof.
   apply wf_replace; auto; [congruence|wf_leaf].
 Qed.
 
-Lemma wf_k_sendfile st a b n : wfs st -> wfs (fst (k_sendfile st a b n)).
+Lemma wf_k_sendfile st a b n x : wfs st -> wfs (fst (fst (fst (k_sendfile st a b n x)))).
 Proof.
   intro W. unfold k_sendfile. destruct (fd_dir b || fd_dir a || negb (fd_rd b) || negb (fd_wr a)); auto.
-  destruct (get (root st) (fd_path a)) as [[c| |]|] eqn:G; auto. cbn [fst].
-  apply wf_replace; auto; [congruence|wf_leaf].
+  destruct x as [[|m]|]; auto;
+    (destruct (get (root st) (fd_path a)) as [[c| |]|] eqn:G; auto; cbn [fst];
+     apply wf_replace; auto; [congruence|wf_leaf]).
+Qed.
+
+Lemma wf_xfer_loop fuel : forall orc st a b left, wfs st -> wfs (fst (xfer_loop fuel orc st a b left)).
+Proof.
+  induction fuel as [|f IH]; intros orc st a b left W; destruct left; simpl; auto.
+  pose proof (wf_k_sendfile st a b (S left) (hd_error orc) W) as W1.
+  destruct (k_sendfile st a b (S left) (hd_error orc)) as [[[st1 a1] b1] [n|e]]; cbn [fst] in *; auto.
+  destruct (Nat.eqb n 0); auto.
 Qed.
 
 Lemma wf_k_ftruncate0 st f : wfs st -> wfs (k_ftruncate0 st f).
@@ -177,19 +186,31 @@ Proof.
   - pose proof (wf_k_rename st a b W) as W2. destruct (k_rename st a b) as [st2 e]; auto.
 Qed.
 
-Lemma wf_f_copy st a b fie : wfs st -> wfs (fst (f_copy st a b fie)).
+Lemma wf_f_copy orc st a b fie : wfs st -> wfs (fst (f_copy_o orc st a b fie)).
 Proof.
-  intro W. unfold f_copy.
+  intro W. unfold f_copy_o.
   pose proof (wf_k_open st a true false false false false W) as W1.
   destruct (k_open st a true false false false false) as [st1 [fs|e]]; auto. cbn [fst] in W1.
   destruct (fd_dir fs); auto. destruct (k_lseek st1 fs 0 2) as [fs1 size]. destruct (size <? 0); auto.
   destruct (k_lseek st1 fs1 0 0) as [fs2 z]. destruct (z <? 0); auto.
-  pose proof (wf_k_open st1 b false true true fie false W1) as W2.
-  destruct (k_open st1 b false true true fie false) as [st2 [fd2|e]]; auto. cbn [fst] in W2.
-  destruct (same_file fs2 fd2); auto.
-  pose proof (wf_k_ftruncate0 st2 fd2 W2) as W2'.
-  pose proof (wf_k_sendfile (k_ftruncate0 st2 fd2) fd2 fs2 (Z.to_nat size) W2') as W3.
-  destruct (k_sendfile (k_ftruncate0 st2 fd2) fd2 fs2 (Z.to_nat size)) as [st3 [n|e]]; auto.
+  assert (FIN : forall (st2 : state) (fd2 : fd) (created : bool), wfs st2 ->
+            wfs (fst (let '(st3, ok) := if same_file fs2 fd2 then (st2, false)
+                                        else xfer_loop (S (Z.to_nat size)) orc (k_ftruncate0 st2 fd2) fd2 fs2 (Z.to_nat size) in
+                      if ok then (st3, true) else if created then (fst (k_unlink st3 b), false) else (st3, false)))).
+  { intros st2 fd2 created W2.
+    assert (W3 : wfs (fst (if same_file fs2 fd2 then (st2, false)
+                           else xfer_loop (S (Z.to_nat size)) orc (k_ftruncate0 st2 fd2) fd2 fs2 (Z.to_nat size)))).
+    { destruct (same_file fs2 fd2); auto. apply wf_xfer_loop. apply wf_k_ftruncate0. auto. }
+    destruct (if same_file fs2 fd2 then (st2, false)
+              else xfer_loop (S (Z.to_nat size)) orc (k_ftruncate0 st2 fd2) fd2 fs2 (Z.to_nat size)) as [st3 ok].
+    cbn [fst] in W3. destruct ok; auto. destruct created; auto. cbn [fst]. apply wf_k_unlink. auto. }
+  pose proof (wf_k_open st1 b false true true true false W1) as W2.
+  destruct (k_open st1 b false true true true false) as [s [f|e]]; cbn [fst] in W2.
+  - exact (FIN s f true W2).
+  - destruct (is_eexist e && negb fie); auto.
+    pose proof (wf_k_open s b false true true false false W2) as W4.
+    destruct (k_open s b false true true false false) as [s' [f|e']]; cbn [fst] in W4; auto.
+    exact (FIN s' f false W4).
 Qed.
 
 Lemma wf_d_create fuel : forall st p, wfs st -> wfs (fst (d_create fuel st p)).
